@@ -1079,7 +1079,8 @@ class PulseSequence:
     @omega.setter
     def omega(self, value: Coefficients) -> None:
         """Cache frequencies"""
-        self._omega = np.asarray(value) if value is not None else value
+        # Copy so that the cache does not follow in-place changes of the caller's array
+        self._omega = np.array(value) if value is not None else value
 
     @property
     def nbytes(self) -> int:
